@@ -485,3 +485,84 @@ def uses_while_or_jump(defs, main):
                 return True
         return False
     return chk(main) or any(chk(d[3]) for d in defs)
+
+
+# ---------------- targeted shapes ----------------
+def reentry_program(rnd):
+    """a jump from code after a finished LOOP back into that loop's body — from a later loop, after
+    calls, after IFs — with one-shot flags set by constant assignments (the +/- sugar would hog
+    temporaries for good and hide register-reuse problems): the hidden counter must still be private"""
+    k = rnd.randint(1, 3)
+    callee = ('p', ['a'], None, [['assign', 'x0', ('inc', 'a', rnd.randint(0, 2))]])
+    fillers = [
+        [['assign', 'x2', ('call', 'p', [('num', rnd.randint(2, 6))])]],
+        [['assign', 'x2', ('call', 'p', [('call', 'p', [('num', rnd.randint(2, 6))])])]],
+        [['assign', 'x2', ('num', rnd.randint(3, 7))], ['if', 'x2', 99, 'e']],
+        [['assign', 'x2', ('var', 'x1')]],
+    ]
+    body = [['assign', 'x1', ('num', k)],
+            ['loop', 'x1', [['label', 'm0'], ['assign', 'x0', ('inc', 'x0', 1)]]],
+            ['if', 'b', 1, 'e'],
+            ['assign', 'b', ('num', 1)]]
+    for f in rnd.sample(fillers, rnd.randint(0, 2)):
+        body += f
+    v = rnd.random()
+    if v < 0.5:
+        # jump from inside a later loop (its counter is live)
+        body += [['assign', 'a', ('num', rnd.randint(2, 5))],
+                 ['loop', 'a', [['if', 'b', 1, 'm0'], ['assign', 'x2', ('num', 1)]]]]
+    elif v < 0.8:
+        # jump right after a call whose argument is a constant
+        body += [['assign', 'x2', ('call', 'p', [('num', rnd.randint(2, 6))])], ['goto', 'm0']]
+    else:
+        body += [['assign', 'a', ('num', rnd.randint(2, 5))],
+                 ['while', 'a', [['goto', 'm0']]]]
+    body += [['label', 'e'], ['assign', 'x2', ('var', 'x2')]]
+    return number([callee], body)
+
+
+def canonical_multi(defs, main, rnd):
+    """one statement per line, program definitions optionally moved to their own included files.
+    Returns (files dict name->text, L) with L values (file, line)."""
+    files, L = {}, {}
+    mainlines = []
+    for i, (n, params, o, b) in enumerate(defs):
+        text, l1 = canonical([(n, params, o, b)], [], rnd)
+        if rnd.random() < 0.6:
+            fname = 'lib%d' % i
+            # a few blank / comment lines in front move the line numbers around
+            pad = rnd.randint(0, 3)
+            files[fname] = '// c\n' * pad + text
+            for k, v in l1.items():
+                key = ('hdr', i) if k == ('hdr', 0) else (('pend', i) if k == ('pend', 0) else k)
+                L[key] = (fname, v + pad)
+            mainlines.append('include "%s"' % fname)
+        else:
+            base = len(mainlines)
+            for ln in text.rstrip('\n').split('\n'):
+                mainlines.append(ln)
+            for k, v in l1.items():
+                key = ('hdr', i) if k == ('hdr', 0) else (('pend', i) if k == ('pend', 0) else k)
+                L[key] = ('m', v + base)
+    text, l2 = canonical([], main, rnd)
+    base = len(mainlines)
+    for ln in text.rstrip('\n').split('\n'):
+        mainlines.append(ln)
+    for k, v in l2.items():
+        L[k] = ('m', v + base)
+    files['m'] = '\n'.join(mainlines) + '\n'
+    return files, L
+
+
+def header_after_include(defs, main, rnd, p_nl=0.06):
+    """every program's closing END comes from an included file, and the next header (or the main
+    statements) continues the same line: a line is left for another file and re-entered"""
+    files = {}
+    ts = []
+    for i, (n, params, o, b) in enumerate(defs):
+        ts += header_toks(n, params, o) + st_toks(b)
+        files['e%d' % i] = rnd.choice(['END', 'END\n', '\nEND', '// x\nEND'])
+        ts.append('include "e%d"' % i)
+    ts += st_toks(main)
+    files['m'] = text_of_tokens(ts, rnd, p_nl)
+    return files
